@@ -315,6 +315,20 @@ def check(ctx):
     le = layout['last_enpassant_square']
     ok = flag is not None and (flag, 1) in le and any('last_enpassant' in f and 'const:1' in f for r, f in arms) \
         and any('last_enpassant' not in f and 'const:1' not in f for r, f in arms)
+    # ... and that arm is the one taken when there IS a square to remember
+    from rules.norm import Norm as _Nf
+    nf = _Nf(cm)
+    for ret_, f_ in arms:
+        has_sq = 'last_enpassant' in f_ and 'const:1' in f_
+        atoms_ = set()
+        for c_, t_ in guard_facts(cm, ret_):
+            atoms_ |= set(nf.facts([(c_, t_)]))
+        rel = [a for a in atoms_ if a[0] == 'in' and a[1] == 'last_enpassant']
+        if len(rel) != 1:
+            raise AnalysisBroken('create_moveinfo: the arms are not told apart by a test of last_enpassant against NO_SQUARE (%s)' % sorted(map(str, atoms_)))
+        real = 64 not in rel[0][2] and set(range(64)) <= set(rel[0][2])
+        none = set(rel[0][2]) == {64}
+        ok = ok and ((has_sq and real) or (not has_sq and none))
     ctx.ob('C03.R2.ep-flag', 'last_enpassant_square', ok,
            'the "had an e.p. square" flag (bit %s) is stored exactly when the square is and is what the accessor tests' % flag,
            site=decs['last_enpassant_square'].loc())
